@@ -7,6 +7,9 @@ import Tw.Proofs.Packet7Bounds
 import Tw.Proofs.PacketIterInst
 import Tw.Proofs.PacketFast
 import Tw.Proofs.PacketTwoStep
+import Tw.Proofs.Packet6TwoStepValue
+import Tw.Proofs.Packet7TwoStepValue
+import Tw.Proofs.Huffman
 import Tw.Proofs.HuffmanTable
 
 /-!
@@ -134,6 +137,60 @@ theorem v7_two_step_never_panics (t : Tw.Huffman.Table) (bytes : List UInt8) (ca
       Tw.Packet7.read t bytes none ≠ .panic site) :=
   ⟨fun s h => ⟨Tw.Packet7.din_output_not_compressed t bytes cap s h, Tw.Packet7.two_step_ne_panic t bytes cap s h site⟩,
    fun h hcap => Tw.Packet7.two_step_ne_panic_plain t bytes cap h hcap site⟩
+
+/-- **0.6 two-step path returns what `Packet::read` returns.**  `ReadResult.value` is the packet or the
+error of a result (warnings, slice location and scratch contents dropped: the header the first step writes
+has lost `PacketHeaderPadding`/`ControlFlags`).  If `decompress_if_needed` decompressed the datagram into
+`s`, not longer than a packet (always so with the documented `MAX_PACKETSIZE` buffer), then
+`read_panic_on_decompression s` and `Packet::read bytes` have the same value; if nothing had to be
+decompressed the two calls agree completely. -/
+theorem v6_two_step_equals_read (t : Tw.Huffman.Table) (bytes : List UInt8) (cap : Nat) (hint : Option Bool) :
+    (∀ s, Tw.Packet6.decompressIfNeeded t bytes cap = .ok true s → s.length ≤ Tw.Gen.Packet6.MAX_PACKETSIZE →
+      (Tw.Packet6.read t s hint none).value = (Tw.Packet6.read t bytes hint (some cap)).value) ∧
+    (Tw.Gen.Packet6.MAX_PACKETSIZE ≤ cap → Tw.Packet6.needsDecompression bytes = false →
+      Tw.Packet6.read t bytes hint none = Tw.Packet6.read t bytes hint (some cap)) :=
+  ⟨fun s h hs => Tw.Packet6.two_step_value t bytes cap s h hs hint,
+   fun hcap hn => Tw.Packet6.read_none_eq_of_not_compressed t bytes hint cap hcap hn⟩
+
+/-- with a buffer larger than a packet the first step can produce more than `MAX_PACKETSIZE` bytes; then
+both paths refuse, under different names (`TooLong` / `Compression`) -/
+theorem v6_two_step_oversized (t : Tw.Huffman.Table) (bytes : List UInt8) (cap : Nat) (s : List UInt8)
+    (h : Tw.Packet6.decompressIfNeeded t bytes cap = .ok true s) (hs : s.length > Tw.Gen.Packet6.MAX_PACKETSIZE)
+    (hint : Option Bool) :
+    (Tw.Packet6.read t s hint none).value = some (.error .tooLong) ∧
+    (Tw.Packet6.read t bytes hint (some cap)).value = some (.error .compression) :=
+  Tw.Packet6.two_step_too_long t bytes cap s h hs hint
+
+/-- **0.7 two-step path returns what `Packet::read` returns**, under the explicit hypothesis `hT`: the
+token-request length rule (`tooShortRequest tok len`: header token `TOKEN_NONE` and `len < 519`) gives the
+same verdict for the length of the datagram and for the length of the decompressed `s`. -/
+theorem v7_two_step_equals_read (t : Tw.Huffman.Table) (bytes : List UInt8) (cap : Nat) (s : List UInt8)
+    (h : Tw.Packet7.decompressIfNeeded t bytes cap = .ok true s) (hs : s.length ≤ Tw.Gen.Packet7.MAX_PACKETSIZE)
+    (hT : Tw.Packet7.tooShortRequest (Tw.Packet7.headerOf bytes).1.token bytes.length ↔
+      Tw.Packet7.tooShortRequest (Tw.Packet7.headerOf bytes).1.token s.length) :
+    (Tw.Packet7.read t s none).value = (Tw.Packet7.read t bytes (some cap)).value :=
+  Tw.Packet7.two_step_value t bytes cap s h hs hT
+
+/-- **witness that `hT` is needed** (built-in table): the 76-byte datagram `14 00 00 ff ff ff ff` +
+Huffman(`05 01 02 03 04 00…00`, 512 bytes) — a *compressed* token request — is refused by `Packet::read`
+(`ControlTokenRequestTooShort`: the 519-byte anti-amplification rule looks at the wire length), but
+`decompress_if_needed` expands it to exactly 519 bytes which `read_panic_on_decompression` accepts as
+`Token(01020304)`.  This is a difference between two ways of *reading*; C06's re-writability clause is not
+violated (the accepted value is written as a 519-byte request and read back unchanged,
+`v7_accepted_is_rewritable`), so it is documented (notes/packet.md) rather than recorded as a C06 finding. -/
+theorem v7_two_step_token_request_witness :
+    ∃ s, Tw.Packet7.decompressIfNeeded Tw.Gen.Huffman.table
+        (Tw.Packet7.compressedTokenRequest Tw.Gen.Huffman.table ⟨1, 2, 3, 4⟩) Tw.Gen.Packet7.MAX_PACKETSIZE = .ok true s ∧
+      s.length = Tw.Gen.Packet7.TOKEN_REQUEST_PACKET_SIZE ∧
+      (Tw.Packet7.read Tw.Gen.Huffman.table (Tw.Packet7.compressedTokenRequest Tw.Gen.Huffman.table ⟨1, 2, 3, 4⟩)
+        (some Tw.Gen.Packet7.MAX_PACKETSIZE)).value = some (.error .controlTokenRequestTooShort) ∧
+      (Tw.Packet7.read Tw.Gen.Huffman.table s none).value =
+        some (.ok (.connected 0 Tw.Packet7.tokenNone (.control (.token ⟨1, 2, 3, 4⟩)))) := by
+  refine Tw.Packet7.two_step_token_request_witness Tw.Gen.Huffman.table
+    (fun xs cap h => Tw.Huffman.decompress_compress _ Tw.Huffman.wellFormed_table false xs cap h) ⟨1, 2, 3, 4⟩
+    (by decide) ?_
+  rw [Tw.Huffman.compress_length_false]
+  decide +kernel
 
 /-! ## every returned slice lies inside the input or the scratch buffer -/
 
